@@ -111,7 +111,13 @@ func checkC01(c *CheckCtx) error {
 	if err := c.randomFraming(c.pick(120, 2500), multiAPIs, []string{"ci", "default", "gha", "color"}, 0.0, "r"); err != nil {
 		return err
 	}
-	return c.randomFraming(c.pick(60, 1000), allAPIs, []string{"ci", "default", "update", "clean"}, 0.3, "q")
+	if err := c.randomFraming(c.pick(60, 1000), allAPIs, []string{"ci", "default", "update", "clean"}, 0.3, "q"); err != nil {
+		return err
+	}
+	// a run whose Clean legitimately rewrites files (sorting, pruning) in between: the recorded
+	// values must still replay in a following read-only run
+	return c.randomClean(c.pick(60, 1000), "w", []string{"default", "clean", "update"},
+		cleanGenOpts{maxTests: 4, maxCalls: 4, staleProb: 0.7, decoyProb: 0.2, sortProb: 0.7, ciReplay: true})
 }
 
 func checkC02(c *CheckCtx) error {
